@@ -42,10 +42,10 @@ func uid(_ spec.RoomID, s spec.SenderID) (*spec.UserID, error) {
 	return spec.NewUserID(string(s), true)
 }
 
-var tamperNames = []string{"none", "content-unprotected", "content-protected", "top-junk", "hash-altered", "hash-removed", "unsigned", "age_ts", "outlier", "destinations", "redacts-top", "depth", "sticky", "msc4354_sticky", "event_id-top", "event_id-twice", "unsigned-twice", "age_ts-twice", "event_id-casefold", "event_id-kelvin", "unsigned-casefold"}
+var tamperNames = []string{"none", "content-unprotected", "content-protected", "top-junk", "hash-altered", "hash-removed", "unsigned", "age_ts", "outlier", "destinations", "redacts-top", "depth", "sticky", "msc4354_sticky", "event_id-top", "event_id-twice", "unsigned-twice", "age_ts-twice", "event_id-casefold", "event_id-kelvin", "unsigned-casefold", "event_id-escaped", "unsigned-escaped"}
 
 // redactable[t]: the tampering touches only material that redaction removes or that is stripped on receipt
-var redactableOnly = map[string]bool{"none": true, "content-unprotected": true, "top-junk": true, "unsigned": true, "age_ts": true, "outlier": true, "destinations": true, "sticky": true, "msc4354_sticky": true, "event_id-top": true, "event_id-twice": true, "unsigned-twice": true, "age_ts-twice": true, "event_id-casefold": true, "event_id-kelvin": true, "unsigned-casefold": true}
+var redactableOnly = map[string]bool{"none": true, "content-unprotected": true, "top-junk": true, "unsigned": true, "age_ts": true, "outlier": true, "destinations": true, "sticky": true, "msc4354_sticky": true, "event_id-top": true, "event_id-twice": true, "unsigned-twice": true, "age_ts-twice": true, "event_id-casefold": true, "event_id-kelvin": true, "unsigned-casefold": true, "event_id-escaped": true, "unsigned-escaped": true}
 
 func set(v *refjson.Value, key string, val *refjson.Value) *refjson.Value {
 	out := &refjson.Value{Kind: refjson.Object}
@@ -155,6 +155,14 @@ func tamper(version string, v *refjson.Value, t string) (*refjson.Value, bool) {
 			return nil, false
 		}
 		return set(v, key, lit(val)), true
+	case "event_id-escaped", "unsigned-escaped":
+		// the stripped key itself, its name spelt with a \uXXXX escape in the text (see escapeSpelling below): the same key
+		key := strings.TrimSuffix(t, "-escaped")
+		if key == "event_id" && row.EventFormat == 1 {
+			return nil, false
+		}
+		val := map[string]string{"event_id": `"$forged_escaped"`, "unsigned": `{"forged":"escaped"}`}[key]
+		return set(v, key, lit(val)), true
 	case "sticky", "msc4354_sticky": // top-level keys outside every keep-list that an accessor (IsSticky / StickyEndTime) reads
 		return set(v, t, lit(`{"duration_ms":600000}`)), true
 	}
@@ -185,6 +193,15 @@ func runCase(r *harness.Run, c c04Case) error {
 		v = nv
 	}
 	text := refjson.Emit(nil, v, true)
+	for _, t := range c.Tampers {
+		// respell the member name in the text: the last letter as a \u escape (the JSON value is unchanged)
+		switch t {
+		case "event_id-escaped":
+			text = bytes.Replace(text, []byte(`"event_id":`), []byte(`"event_i\u0064":`), 1)
+		case "unsigned-escaped":
+			text = bytes.Replace(text, []byte(`"unsigned":`), []byte(`"unsigne\u0064":`), 1)
+		}
+	}
 	// what the receiver hashes: the event without the keys stripped on receipt
 	strip := []string{"outlier", "destinations", "age_ts", "unsigned"}
 	if row.EventFormat != 1 {
@@ -341,7 +358,7 @@ func runCase(r *harness.Run, c c04Case) error {
 func main() { harness.Main("C04", "model_checking", run) }
 
 func run(r *harness.Run) {
-	r.Rule("every built event of the proto-event alphabet (9 type/state-key shapes x contents) x all 16 room versions x every single and every pair of 17 tamperings (incl. an added top-level event_id in formats 2 / 3, event_id / unsigned / age_ts present twice, and junk keys that differ from event_id / unsigned only in letter case or by a Unicode case-fold) (unprotected / protected content key, extra top-level key, hash altered / removed, unsigned, age_ts, outlier, destinations, top-level redacts, depth, top-level sticky / msc4354_sticky) plus the untampered event, parsed with NewEventFromUntrustedJSON; additionally each tampered copy is parsed after the genuine copy and again after another tampered copy (history sensitivity). Oracle: Redacted() <=> reference content-hash mismatch; JSON()/Content()/Redacts()/Unsigned()/StickyEndTime()/IsSticky()/headered JSON equal the reference redaction (refredact) resp. the intact event; redactable-only tampering keeps the event ID and the signature verdict. Non-trivial = distinct (version, event, tampering set).")
+	r.Rule("every built event of the proto-event alphabet (9 type/state-key shapes x contents) x all 16 room versions x every single and every pair of 17 tamperings (incl. an added top-level event_id in formats 2 / 3, event_id / unsigned / age_ts present twice, and junk keys that differ from event_id / unsigned only in letter case or by a Unicode case-fold, and event_id / unsigned with their name spelt with a \\u escape) (unprotected / protected content key, extra top-level key, hash altered / removed, unsigned, age_ts, outlier, destinations, top-level redacts, depth, top-level sticky / msc4354_sticky) plus the untampered event, parsed with NewEventFromUntrustedJSON; additionally each tampered copy is parsed after the genuine copy and again after another tampered copy (history sensitivity). Oracle: Redacted() <=> reference content-hash mismatch; JSON()/Content()/Redacts()/Unsigned()/StickyEndTime()/IsSticky()/headered JSON equal the reference redaction (refredact) resp. the intact event; redactable-only tampering keeps the event ID and the signature verdict. Non-trivial = distinct (version, event, tampering set).")
 	r.Assume("sha256/ed25519 trusted", "signature verdicts are taken through a static verifier holding the signers' keys (key validity is C06/C12)")
 	r.OnReplay("case", func(raw json.RawMessage) error {
 		var c c04Case
